@@ -19,6 +19,7 @@ import (
 	"github.com/spf13/afero"
 
 	"dvh/internal/corekit"
+	"dvh/internal/crashstore"
 	"dvh/internal/memstore"
 	"dvh/internal/tr"
 
@@ -191,6 +192,55 @@ func cafsReadSeq(st *memstore.Store, leaf int, key cafs.Key, r *tr.Rng, bufs []i
 		return mode, fmt.Sprintf("%s calls=%s", end, strings.Join(calls, ","))
 	}
 	return mode, fmt.Sprintf("ok %s calls=%s", cafsH256(out), strings.Join(calls, ","))
+}
+
+// cafsPutFaulty stores a content on a scratch copy of the store while ONE store write (a leaf or
+// the root blob) fails transiently: Put must report the failure — never succeed with a key. The
+// writes are slowed a little so that several leaf uploads are in flight when the failure arrives.
+func cafsPutFaulty(c *ctx, r *tr.Rng, st *memstore.Store, leaf, idx int, seed uint64, n int, plan []int, single bool) {
+	nl := (n + leaf - 1) / leaf
+	k := 1 + r.Intn(nl+1)
+	work := st.Clone()
+	g := &crashstore.Group{FailOnceAt: k}
+	slow := time.Duration(50+r.Intn(400)) * time.Microsecond
+	g.Hook = func(_, op, _ string) {
+		if op == "put" {
+			time.Sleep(slow)
+		}
+	}
+	ws := crashstore.Wrap(g, "blob", work)
+	flushes := 2 + r.Intn(7)
+	content := tr.GenBytes(seed, n)
+	var src io.Reader
+	if single {
+		src = bytes.NewReader(content)
+	} else {
+		src = &cafsChunkedReader{data: append([]byte(nil), content...), sizes: plan}
+	}
+	var res cafs.PutRes
+	err := corekit.Recover(func() error {
+		fs, e := cafs.New(cafs.LeafSize(uint32(leaf)), cafs.Backend(ws), cafs.Logger(corekit.Nop), cafs.ConcurrentFlushes(flushes), cafs.CacheSize(3*leaf))
+		if e != nil {
+			return e
+		}
+		res, e = fs.Put(context.Background(), src)
+		return e
+	})
+	fired := false
+	for _, w := range g.Snapshot() {
+		if w.Err && !w.Landed {
+			fired = true
+		}
+	}
+	if !fired {
+		return
+	}
+	out := "err"
+	if err == nil {
+		out = "ok key=" + res.Key.String()
+	}
+	c.w.Op(fmt.Sprintf("putf obj=%d content=gen:%d:%d chunks=%s failat=%d flushes=%d", idx, seed, n, cafsJoin(plan), k, flushes), out)
+	c.w.Count("put-with-write-fault")
 }
 
 // cafsHistory applies one piece of store history to an object stored earlier: a crash remnant
@@ -663,6 +713,10 @@ func c02(c *ctx) error {
 				c.w.Count("reput")
 			}
 			plan, single := cafsChunkPlan(r, ln, leaf)
+			// first on a scratch copy with one failing store write (no effect on the history)
+			for q := 0; q < 3 && ln > 0; q++ {
+				cafsPutFaulty(c, r, st, leaf, o+100, seed, ln, plan, single)
+			}
 			ob, ok := cafsPut(c, fs, o, seed, ln, plan, single)
 			c.w.Op("snapshot", cafsSnapshot(st))
 			c.w.Count(fmt.Sprintf("len_leaves=%d", (ln+leaf-1)/leaf))
